@@ -61,6 +61,9 @@ pub trait Zk: Sync {
     // JSON codecs: octets -> json ; json -> octets
     fn json_of(&self, kind: Kind, b: &[u8]) -> O<String>;
     fn octets_of_json(&self, kind: Kind, j: &str) -> O<Vec<u8>>;
+    /// decode an object from JSON and hand it to every consumer a verifier / holder would call on it (results ignored:
+    /// only "returns a value" is of interest to the caller)
+    fn use_json(&self, kind: Kind, j: &str, pk: &[u8], header: Hdr, ph: Hdr, msgs: Msgs) -> O<()>;
     /// the public helper prepare_parameters: returns (message scalars, generator list)
     fn prepare_parameters(&self, msgs: Msgs, cmsgs: Msgs, ng: usize, nbg: usize, blind: Option<&[u8; 32]>, api_id: Hdr) -> O<(Vec<[u8; 32]>, Vec<[u8; 48]>)>;
     fn random_blind_factor(&self) -> O<[u8; 32]>;
@@ -303,6 +306,24 @@ where
                 Kind::Proof => serde_json::from_str::<PoKSignature<BBSplus<CS>>>(j).map_err(e)?.to_bytes(),
                 Kind::Commitment => serde_json::from_str::<Commitment<BBSplus<CS>>>(j).map_err(e)?.to_bytes(),
             })
+        })
+    }
+    fn use_json(&self, kind: Kind, j: &str, pk: &[u8], header: Hdr, ph: Hdr, msgs: Msgs) -> O<()> {
+        guard(|| {
+            let e = |x: serde_json::Error| Error::DeserializationError(x.to_string());
+            let one: Msgs = msgs.map(|m| &m[..m.len().min(1)]);
+            match kind {
+                Kind::Pk => { let k = serde_json::from_str::<BBSplusPublicKey>(j).map_err(e)?; let _ = k.to_bytes(); let _ = k.to_coordinates(); }
+                Kind::Sk => { let k = serde_json::from_str::<BBSplusSecretKey>(j).map_err(e)?; let _ = k.to_bytes(); let _ = k.public_key(); }
+                Kind::Sig => { let s = serde_json::from_str::<Signature<BBSplus<CS>>>(j).map_err(e)?; let _ = s.verify(&pk_of(pk)?, msgs, header); let _ = s.to_bytes(); }
+                Kind::BlindSig => { let s = serde_json::from_str::<BlindSignature<BBSplus<CS>>>(j).map_err(e)?; let _ = s.verify_blind_sign(&pk_of(pk)?, header, msgs, None, None); let _ = s.to_bytes(); }
+                Kind::Proof => { let p = serde_json::from_str::<PoKSignature<BBSplus<CS>>>(j).map_err(e)?;
+                    let _ = p.proof_verify(&pk_of(pk)?, one, Some(&[0]), header, ph);
+                    let _ = p.blind_proof_verify(&pk_of(pk)?, header, ph, Some(1), one, None, Some(&[0]), None);
+                    let _ = p.to_bytes(); }
+                Kind::Commitment => { let c = serde_json::from_str::<Commitment<BBSplus<CS>>>(j).map_err(e)?; let _ = c.to_bytes(); }
+            }
+            Ok::<_, Error>(())
         })
     }
     fn prepare_parameters(&self, msgs: Msgs, cmsgs: Msgs, ng: usize, nbg: usize, blind: Option<&[u8; 32]>, api_id: Hdr) -> O<(Vec<[u8; 32]>, Vec<[u8; 48]>)> {
